@@ -9,7 +9,7 @@ equality with the reconstructed image, nothing else is exempt), 3 freed with the
 secret, 5 partial residue.  The observed (size, kind) list must equal `observe (run_seq codes)` of the Coq model.
 
 What the Coq part (coq/Sys/Zeroize.v, coq/Properties/C33.v) adds, and what it does not: it proves, for ALL call
-sequences of any length over the 34 modelled calls, that the *modelled* allocation discipline (capacity reserved up
+sequences of any length over the 37 modelled calls, that the *modelled* allocation discipline (capacity reserved up
 front >= everything pushed, scrub-before-free wrappers, Secret::new zeroizing on both paths) never frees or
 reallocates a block that holds the secret, that the only unscrubbed release is the distinguished upstream pad buffer
 (exactly once per secret-hashing call, 128 / 64 bytes), and it pins the capacity arithmetic (3+4+2 <= 9, 32+32+8 <= 72,
@@ -25,9 +25,9 @@ HARNESS = [("zeroize", [])]
 FIDS = [3301, 3302, 3303]
 LEVEL = "other"
 RULE = ("harness/src/bin/zeroize.rs (release build, single thread, scanning global allocator): fid 3301 = API call "
-        "sequences over a 34-call alphabet (Secret::new valid/invalid on a heap-held caller buffer, From<BytesDigest>/"
+        "sequences over a 37-call alphabet (Secret::new valid/invalid on a heap-held caller buffer, From<BytesDigest>/"
         "From<Digest>/TryFrom, expose_*, Nullifier/UnspendableAccount new, from_preimage/from_secret, From<&CircuitInputs>, "
-        "to_bytes/from_bytes, to_field_elements/from_field_elements, their Err paths on a secret-bearing slice, every drop), "
+        "to_bytes/from_bytes, to_field_elements/from_field_elements, their Err paths on a secret-bearing slice, every drop, and the public SensitiveFelts::new on a caller-built Vec whose capacity exceeds its length + reading it + dropping it), "
         "for 5 recognisable secrets (ASCII test pattern, counting bytes, limbs p-1, 0x11.., edge limbs) and 3 (quick) / 7 "
         "(thorough) random canonical secrets, random transfer_count: ALL sequences of length <= 2 for every secret, ALL "
         "of length 3 for the ASCII and the random secrets in quick (every secret in thorough) and 3000 sampled otherwise, "
@@ -66,7 +66,9 @@ OPS = ["Secret::new(valid)", "Secret::new(invalid)", "Secret::from(BytesDigest)"
        "UnspendableAccount::to_bytes", "UnspendableAccount::from_bytes", "drop(account bytes)",
        "UnspendableAccount::to_field_elements", "UnspendableAccount::from_field_elements", "drop(account felts)",
        "drop(UnspendableAccount)", "UnspendableAccount::from_bytes(short)", "UnspendableAccount::from_bytes(bad id)",
-       "UnspendableAccount::from_field_elements(short)"]
+       "UnspendableAccount::from_field_elements(short)",
+       "SensitiveFelts::new(caller Vec, capacity 16 > len 10)", "Nullifier::from_field_elements(that wrapper)",
+       "drop(that wrapper)"]
 
 
 def _ints(s):
